@@ -169,6 +169,22 @@ pub fn run(tier: Tier) -> i32 {
             }
         }
         *n_variants.lock().unwrap() += variants.len() as u64;
+        // the configuration table is a file too: every order of its fields (projects with more than two fields)
+        let n_fields = 2 + p.cfg.namespaces.is_some() as usize + !p.cfg.inherits.is_empty() as usize + p.cfg.locales_dir.is_some() as usize;
+        if n_fields > 2 {
+            let n_perms: usize = (1..=n_fields).product();
+            for fo in 1..n_perms {
+                let mut v = p.clone();
+                v.cfg.field_order = fo;
+                let d = dump(&run_project(&v, &dir, default_opts()), false);
+                rep.eval(1);
+                if d != bd {
+                    let (a, b) = first_diff(&bd, &d);
+                    rep.violation(format!("C10/order: reordering the fields of the configuration changes the result: {a} vs {b} :: {}", v.cfg.toml_table().replace('\n', "; ")), json!({"base_dump": bd, "variant_dump": d}));
+                }
+            }
+            *n_variants.lock().unwrap() += (n_perms - 1) as u64;
+        }
         // repeated run in the same process
         let again = dump_repeat(&run_project(p, &dir, default_opts()));
         if again != bd_repeat {
@@ -209,7 +225,7 @@ pub fn run(tier: Tier) -> i32 {
         rep.sample(json!({"project": vmodel::report::truncate(&corpus[j].describe(), 400)}));
     }
     let mut cov = serde_json::Map::new();
-    cov.insert("rule".into(), json!(format!("corpus: every depth-1 foreign-key chain x target kind in a 2-locale project, inheritance projects, repeated identical strings with and without namespaces, value forests with literals and plural forms, surplus/missing/unused-form diagnostics, cyclic/missing references; for every project every permutation of the top-level keys of its files when a file has <= {kmax} keys (else reversal and rotation), nested groups reversed, {{count,value}} field order flipped: the canonical dump (keys, signatures, effective locales, string tables, diagnostics, rendered text under boundary counts, or the error) must be identical; rerun in the same process and in three fresh processes (there also the order in which diagnostics are emitted, and which of several errors is reported, must repeat); distinct_nontrivial = distinct canonical dumps")));
+    cov.insert("rule".into(), json!(format!("corpus: every depth-1 foreign-key chain x target kind in a 2-locale project, inheritance projects, repeated identical strings with and without namespaces, value forests with literals and plural forms, surplus/missing/unused-form diagnostics, cyclic/missing references; for every project every permutation of the top-level keys of its files when a file has <= {kmax} keys (else reversal and rotation), nested groups reversed, {{count,value}} field order flipped, every order of the fields of the configuration table (projects with inherits / namespaces / a custom directory): the canonical dump (keys, signatures, effective locales, string tables, diagnostics, rendered text under boundary counts, or the error) must be identical; rerun in the same process and in three fresh processes (there also the order in which diagnostics are emitted, and which of several errors is reported, must repeat); distinct_nontrivial = distinct canonical dumps")));
     cov.insert("exhaustive".into(), json!(true));
     cov.insert("front_end".into(), json!(fmt.name()));
     rep.finish(cov, &["numeric literal type may differ between front-ends (compared by rendered text across formats)"])
